@@ -39,3 +39,7 @@ chk("C19", "exploration", "exhaustive enumeration of (existing, options, strateg
 chk("C22", "model_checking", "model-only BFS of abstract states to a depth bound; every outgoing transition executed on the real Flushable/LazyFlushable (replay shortest path + 1 op) with full observation against the model",
     "Abstract states (underlying contents, overlay with tombstones, live snapshot, open iterator with cursor and life-time view history) reachable within depth 4 (quick) / 6 (thorough) over a colliding key alphabet; every op of a ~40-op alphabet (puts, deletes, 2-write batches incl. Replay/ValueSize, flush, drop, direct underlying writes, snapshot, iterator open/next/release) is executed in every state on the real code over a reference store; Get/Has for all keys, iteration for every (prefix,start) pair, NotFlushedPairs, the underlying store's contents and snapshot reads are compared with the model.",
     "Iterators spanning later writes are held to the weakly-consistent contract only. The reference store ref/kv is the trusted base.", "E2; DESIGN §7 C22")
+
+chk("C24", "model_checking", "BFS over reachable store contents per prefix pair; every table/raw op executed on real Table objects over the reference store; compaction ranges enumerated for all small prefixes",
+    "For all 49 prefix pairs over {'',00,a,a ff,ff,ff ff,b} plus nested chains: every sequence (depth 3 quick / 4 thorough, dedup on store contents) of put/delete/batch+replay through two tables, a nested table and the raw store; each table's Get/Has/iteration for every (prefix,start), pre- and post-op snapshots are compared with the prefix-stripped part of the store, and the raw store with the model (writes touch only prefixed keys). Compact(nil,nil)/Compact(s,l) request ranges checked for all prefixes of length <=2 over {00,01,7f,fe,ff} and 3-byte boundary prefixes, plain and nested.",
+    "The table wrapper is stateless, so states are store contents. ref/kv is the trusted base.", "E2; DESIGN §7 C24")
